@@ -85,6 +85,19 @@ def run_pyvc(rep: Report, keys, native_limit=150):
         rep.sample(r.brief())
 
 
+def link_bounded_witness(rep, only=None):
+    """a failing input found by a bounded stand-in of the same property is the replayed input for the
+    deductive obligations that failed in the same run (they would otherwise end 'no-failing-input-found')"""
+    fails = [r for r in rep.results if r.klass == "B" and r.status == VIOLATED and r.witness is not None]
+    if not fails:
+        return
+    for r in rep.results:
+        if r.klass in ("P", "L") and not r.replayed and (r.status == VIOLATED or (r.status == UNDECIDED and r.cand)) \
+                and (only is None or only(r)):
+            r.replayed = True
+            r.replay = dict(r.replay or {}, native_input=fails[0].witness, found_by=fails[0].oid, how=fails[0].backend)
+
+
 def contracts_for(prop):
     from .pyvc import spec as S
     return [k for k, c in S.CONTRACTS.items() if prop in c.props and not c.assumed]
